@@ -5,6 +5,12 @@ use crate::scenario::Runner;
 use emulator_2a_lib::machine::{Bus, VerifBoard};
 use serde_json::{json, Value};
 use std::io::BufRead;
+use std::panic::{catch_unwind, AssertUnwindSafe};
+
+/// A panic in the code under test is data: the signature becomes a sentinel that matches no specification row.
+fn guarded<F: FnOnce() -> Vec<i64>>(f: F) -> Vec<i64> {
+    catch_unwind(AssertUnwindSafe(f)).unwrap_or_else(|_| vec![-99])
+}
 
 pub fn bsig(bus: &Bus) -> Vec<i64> {
     let b = bus.board();
@@ -65,9 +71,11 @@ pub fn check(path: &str) {
                 let pre = row_of(&v["pre"]);
                 let mut base = Runner::new(std::io::sink());
                 base.quiet = true;
-                base.m.raw_mut().bus_mut().board_mut().verif_restore(&board_from_sig(&pre));
+                let got0 = guarded(|| {
+                    base.m.raw_mut().bus_mut().board_mut().verif_restore(&board_from_sig(&pre));
+                    bsig(base.m.bus())
+                });
                 states += 1;
-                let got0 = bsig(base.m.bus());
                 if got0 != pre {
                     mism += 1;
                     *per_op.entry("(state)".into()).or_insert(0) += 1;
@@ -87,7 +95,7 @@ pub fn check(path: &str) {
                         panics += 1;
                         vec![-99]
                     } else {
-                        bsig(r.m.bus())
+                        guarded(|| bsig(r.m.bus()))
                     };
                     if got != exp {
                         mism += 1;
@@ -131,11 +139,14 @@ pub fn clamp_sweep(step: u64) {
             (x, 3)
         };
         classes[class] += 1;
-        m.set_analog_input1(x);
-        m.set_analog_input2(x);
-        m.set_temp(x);
-        let b = m.bus().board();
-        let got = [b.analog_inputs()[0], b.analog_inputs()[1], *b.temp()];
+        let got = catch_unwind(AssertUnwindSafe(|| {
+            m.set_analog_input1(x);
+            m.set_analog_input2(x);
+            m.set_temp(x);
+            let b = m.bus().board();
+            [b.analog_inputs()[0], b.analog_inputs()[1], *b.temp()]
+        }))
+        .unwrap_or([f32::from_bits(0x7fc0_dead); 3]);
         n += 1;
         for (i, g) in got.iter().enumerate() {
             // -0.0 is a numeric zero inside the range: stored as is
